@@ -127,7 +127,7 @@ def layout_program(rnd, n=60, nfiles=1):
                 stmts.append({"k": "repeat", "n": rnd.randrange(0, 4), "body": [rnd.choice([insn("nop"), byte(num(1)), {"k": "even"}, insn("movr", DOT)])
                                                                             for _ in range(rnd.randrange(1, 3))]})
             elif r < 0.91:
-                stmts.append({"k": "include", "f": rnd.choice([1, 2])})
+                stmts.append({"k": "include", "f": rnd.choice([1, 2, 3, 4])})
             elif r < 0.95:
                 stmts.append(word())
             else:
